@@ -17,8 +17,8 @@ from .values import (SV, SymObj, SymMap, SymSeq, Leaf, Unsupported, as_real, as_
 from .interp import Interp, Path, PyRaise, PathEnd, SOURCES, Models, BoundMethod
 
 from . import budget
-Z3_TIMEOUT_MS = int(os.environ.get("PYVC_Z3_TIMEOUT_MS", "20000"))
-CVC5_TIMEOUT_MS = int(os.environ.get("PYVC_CVC5_TIMEOUT_MS", "30000"))
+Z3_TIMEOUT_MS = int(os.environ.get("PYVC_Z3_TIMEOUT_MS", "45000"))
+CVC5_TIMEOUT_MS = int(os.environ.get("PYVC_CVC5_TIMEOUT_MS", "60000"))
 CVC5_BIN = "/usr/bin/cvc5"
 MAX_PATHS = 4000
 
